@@ -48,6 +48,10 @@ type Prop struct {
 	Parallel int
 	// Setup runs once before the cases (e.g. build the CLI binary).
 	Setup func(tier string) error
+	// CaseTimeout bounds one case (default 15 minutes; negative = no bound). It is not a performance oracle:
+	// cases take milliseconds to a few minutes, and a case that is still running after this long is a
+	// non-termination of the code under test (or of the harness), reported as a violation "hang:<site>".
+	CaseTimeout time.Duration
 	// SamplingSigPrefix marks signatures produced by a sampling complement (e.g. a free-running
 	// race-detector pass): they are confirmed if any signature with that prefix re-occurs in
 	// at least one of the 5 re-executions, instead of the identical signature in all 5.
@@ -293,6 +297,16 @@ func Main(id, tier string, replayPath string) int {
 			nw = n
 		}
 	}
+	caseTimeout := p.CaseTimeout
+	if caseTimeout == 0 {
+		caseTimeout = 15 * time.Minute
+	}
+	if s := os.Getenv("VERIF_CASE_TIMEOUT"); s != "" {
+		if d, err := time.ParseDuration(s); err == nil {
+			caseTimeout = d
+		}
+	}
+	var hung int32
 	ch := make(chan any, 4*nw)
 	ws := make([]*wstate, nw)
 	var wg sync.WaitGroup
@@ -305,8 +319,21 @@ func Main(id, tier string, replayPath string) int {
 			dir := filepath.Join(root, fmt.Sprintf("w%d", i))
 			os.MkdirAll(dir, 0o755)
 			for c := range ch {
+				if atomic.LoadInt32(&hung) != 0 {
+					continue // a case hung: the remaining cases are drained, the run is reported as not exhaustive
+				}
 				x := &Ctx{run: r, Case: c, Dir: dir, w: ws[i]}
-				runCase(p, c, x)
+				if !runCaseBounded(p, c, x, caseTimeout) {
+					// the case goroutine is abandoned together with its worker state and scratch directory
+					atomic.StoreInt32(&hung, 1)
+					r.mu.Lock()
+					ws[i] = newW()
+					ws[i].notes["cap: a case did not terminate; the cases after it were not run"] = true
+					ws[i].extra["caps_hit"]++
+					r.mu.Unlock()
+					dir = filepath.Join(root, fmt.Sprintf("w%d-after-hang", i))
+					os.MkdirAll(dir, 0o755)
+				}
 				n := atomic.AddInt64(&caseCount, 1)
 				if len(x.fails) > 0 || n <= 3 {
 					r.mu.Lock()
@@ -509,6 +536,42 @@ func topOutcomes(m map[string]int64, n int) map[string]int64 {
 	return out
 }
 
+// runCaseBounded runs one case and reports false when it is still running after the bound; the goroutine
+// is then abandoned and a violation "hang:<site>" with the stacks of the case is recorded.
+func runCaseBounded(p *Prop, c any, x *Ctx, bound time.Duration) bool {
+	if bound < 0 {
+		runCase(p, c, x)
+		return true
+	}
+	done := make(chan struct{})
+	go func() { defer close(done); runCase(p, c, x) }()
+	t := time.NewTimer(bound)
+	defer t.Stop()
+	select {
+	case <-done:
+		return true
+	case <-t.C:
+	}
+	buf := make([]byte, 1<<20)
+	buf = buf[:runtime.Stack(buf, true)]
+	site, excerpt := "unknown", ""
+	for _, g := range strings.Split(string(buf), "\n\n") {
+		if strings.Contains(g, "kit.runCase(") && !strings.Contains(g, "kit.runCaseBounded(") {
+			site = panicSite(g)
+			excerpt = g
+			if len(excerpt) > 3000 {
+				excerpt = excerpt[:3000] + "..."
+			}
+			break
+		}
+	}
+	// a fresh Ctx carries the report: the abandoned goroutine still owns x
+	x2 := &Ctx{run: x.run, Case: c, Dir: x.Dir, w: newW()}
+	x2.Fail("hang:"+site, "the case did not terminate within %v\n%s", bound, excerpt)
+	x.fails = append(x.fails[:0:0], x2.fails...)
+	return false
+}
+
 func runCase(p *Prop, c any, x *Ctx) {
 	defer func() {
 		if rec := recover(); rec != nil {
@@ -546,6 +609,11 @@ func confirm(p *Prop, v Violation, root string) (bool, string) {
 	c, err := roundTrip(p, v.Case)
 	if err != nil {
 		return false, "case does not survive JSON: " + err.Error()
+	}
+	if strings.HasPrefix(v.Sig, "hang:") {
+		// re-executing a case that does not terminate would take the bound five times over; the bound is
+		// orders of magnitude above the duration of any case
+		return true, ""
 	}
 	dir := filepath.Join(root, "confirm")
 	os.MkdirAll(dir, 0o755)
